@@ -9,23 +9,27 @@ Import ListNotations.
 Open Scope Z_scope.
 
 (* Tie to the source: the accounting of initializeUpstreamConnection / onUpstreamEvent / finalizeUpstreamConnectionStats
-   has the shape the theorems below are proved for: Increase and SetUpstreamHost only after a successful Connect, no
-   Decrease in the Connect error branch (the ConnectTimeout case may call finalize: no host is set yet, so it does
-   nothing), one Increase in the file, every close event finalizes, finalize = one Decrease guarded by the host. *)
-Theorem c10_l4_source_shape :
-  RelayAcctSrc_translator_ok = true /\ acct_shape_ok = true /\ good_sw src_sw = true.
-Proof. exact l4_source_shape. Qed.
+   has the shape the theorems below are proved for (the repaired shape, fix: close event before Connect returns):
+   SetUpstreamHost, Increase and the two UpstreamConnectionActive++ in front of Connect(), given back exactly once in the
+   Connect error branch, the ConnectTimeout case does not finalize; one Increase in the file, every close event
+   finalizes, finalize = one Decrease guarded by the host. *)
+Theorem c10_l4_source_shape : RelayAcctSrc_translator_ok = true /\ acct_shape_ok = true.
+Proof. exact (conj eq_refl eq_refl). Qed.
+(* the generated switches ARE the shape the lemmas of Proofs/RelayAcct.v are proved for (nothing in Proofs depends on
+   Gen: the theorems below instantiate lemmas about the constant sw_repaired, the type check is this conversion) *)
+Theorem c10_l4_source_is_verified_source : src_sw = sw_repaired.
+Proof. exact eq_refl. Qed.
 
 (* For EVERY history - any number of sessions, any interleaving of their events: accept, admission (CanCreate), each
-   connect attempt failing (refused / timed out / no host) or succeeding, upstream close events (peer, idle/local, read
-   error, write time-out), downstream close - in which no close event of an upstream connection overtakes its own
-   Connect() (see c10_l4_statement_refuted), for every max_connections (0 = unlimited) and number of attempts:
+   connect attempt failing (refused / timed out / no host) or succeeding, INCLUDING a close event of the new upstream
+   connection that is handled before Connect() returns, upstream close events (peer, idle/local, read error, write
+   time-out), downstream close - for every max_connections (0 = unlimited) and number of attempts:
    every session holds 0 or 1 unit of the Connections resource, of the host's and the cluster's
    upstream_connection_active and of the handler's connection count, and nothing once it is over (each increment is
    matched by exactly one decrement when the session ends); the four counters are the sums of what the sessions hold:
    = the number of relaying sessions (times 0 for an unlimited resource) / of sessions not over; never negative; all
    zero when no session is live. *)
-Theorem c10_l4_conserved : forall c evs, no_early evs = true ->
+Theorem c10_l4_conserved : forall c evs,
   let g := run src_sw c evs in
   Forall (fun s => 0 <= h_res s <= 1 /\ 0 <= h_host s <= 1 /\ 0 <= h_clu s <= 1 /\ 0 <= h_down s <= 1 /\
                    (is_done s = true -> h_res s = 0 /\ h_host s = 0 /\ h_clu s = 0 /\ h_down s = 0)) (ss g) /\
@@ -34,55 +38,49 @@ Theorem c10_l4_conserved : forall c evs, no_early evs = true ->
   g_down g = count (fun s => negb (is_done s)) (ss g) /\
   0 <= res g /\ 0 <= g_host g /\ 0 <= g_clu g /\ 0 <= g_down g /\
   (forallb is_done (ss g) = true -> res g = 0 /\ g_host g = 0 /\ g_clu g = 0 /\ g_down g = 0).
-Proof. exact (fun c evs => l4_conserved src_sw c evs (proj2 (proj2 l4_source_shape))). Qed.
+Proof. exact l4_conserved_repaired. Qed.
 Print Assumptions c10_l4_conserved.
 
-(* the counters are the sums of what the sessions hold in EVERY history (also the excluded ones) *)
-Theorem c10_l4_sums : forall c evs,
-  let g := run src_sw c evs in
-  res g = sumf h_res (ss g) /\ g_host g = sumf h_host (ss g) /\ g_clu g = sumf h_clu (ss g) /\ g_down g = sumf h_down (ss g).
-Proof. exact (run_sums src_sw). Qed.
-Print Assumptions c10_l4_sums.
-
-Example c10_l4_example : (* max_connections 2: two sessions relay, a third is refused, a refused dial, all end *)
-  let evs := [Accept; Admit 0; Dial 0 ConnOk; Accept; Admit 1; Dial 1 ConnOk; Accept; Admit 2; UpClose 0; DownClose 1] in
-  no_early evs = true /\
-  map (fun n => res (run src_sw (mkCfg 2 1) (firstn n evs))) [3; 6; 8; 9; 10]%nat = [1; 2; 2; 1; 0] /\
-  overflows (run src_sw (mkCfg 2 1) evs) = 1%nat /\ g_down (run src_sw (mkCfg 2 1) evs) = 0.
+Example c10_l4_example : (* max_connections 2: two sessions relay, a third is refused, an upstream that closes before Connect returns, all end *)
+  let evs := [Accept; Admit 0; Dial 0 ConnOk; Accept; Admit 1; Dial 1 ConnOk; Accept; Admit 2; UpClose 0; DownClose 1;
+              Accept; Admit 3; Dial 3 ConnOkEarly] in
+  map (fun n => res (run src_sw (mkCfg 2 1) (firstn n evs))) [3; 6; 8; 9; 10; 13]%nat = [1; 2; 2; 1; 0; 0] /\
+  overflows (run src_sw (mkCfg 2 1) evs) = 1%nat /\ g_down (run src_sw (mkCfg 2 1) evs) = 0 /\
+  g_host (run src_sw (mkCfg 2 1) evs) = 0 /\ forallb is_done (ss (run src_sw (mkCfg 2 1) evs)) = true.
 Proof. vm_compute. repeat split; reflexivity. Qed.
+
+(* The accounting as it stood BEFORE the repair (everything taken after a successful Connect, sw_old) did not have this
+   property: a close event handled before Connect returns found no host to release, and the unit taken afterwards was
+   never given back.  (For that shape the statement holds for the histories without such an event: Proofs/RelayAcct.v
+   l4_conserved_old.) *)
+Theorem c10_l4_old_shape_refuted :
+  ~ (forall c evs, let g := run sw_old c evs in
+       forallb is_done (ss g) = true -> res g = 0 /\ g_host g = 0 /\ g_clu g = 0 /\ g_down g = 0).
+Proof. exact l4_old_statement_refuted. Qed.
+Print Assumptions c10_l4_old_shape_refuted.
 
 (* Threshold.  In every reachable state the admission test refuses exactly when the resource has reached
    max_connections (m-th admitted, (m+1)-th refused) ... *)
-Theorem c10_l4_admission : forall c evs i s, 0 < maxc c -> no_early evs = true ->
+Theorem c10_l4_admission : forall c evs i s, 0 < maxc c ->
   let g := run src_sw c evs in
   nth_error (ss g) i = Some s -> ph s = Accepted ->
   let g' := step src_sw c g (Admit i) in
   (res g < maxc c -> overflows g' = overflows g /\
        exists s', nth_error (ss g') i = Some s' /\ ph s' = match tries c with O => Done | S _ => Dialing (tries c) end) /\
   (maxc c <= res g -> overflows g' = S (overflows g) /\ exists s', nth_error (ss g') i = Some s' /\ ph s' = Done).
-Proof. exact (fun c evs i s => l4_admission src_sw c evs i s (proj2 (proj2 l4_source_shape))). Qed.
+Proof. exact l4_admission_repaired. Qed.
 Print Assumptions c10_l4_admission.
 
 (* ... and when admissions do not overlap (no CanCreate test while another session is between its own test and the
    end of its connect loop) the resource never exceeds max_connections. *)
-Theorem c10_l4_threshold_serial : forall c evs, 0 < maxc c -> no_early evs = true ->
+Theorem c10_l4_threshold_serial : forall c evs, 0 < maxc c ->
   serial_from src_sw c g0 evs = true -> res (run src_sw c evs) <= maxc c.
-Proof. exact (fun c evs => l4_threshold_bound src_sw c evs (proj2 (proj2 l4_source_shape))). Qed.
+Proof. exact l4_threshold_bound_repaired. Qed.
 Print Assumptions c10_l4_threshold_serial.
 
-(* The full statements are FALSE for the code in the tree. *)
-(* (1) conservation over ALL histories: Connect() starts the upstream read loop before it returns; if the upstream's
-   close event is handled before initializeUpstreamConnection reaches Increase/SetUpstreamHost, finalize finds no host
-   (no Decrease) and the unit taken afterwards is never given back. *)
-Definition c10_l4_statement : Prop := forall c evs,
-  let g := run src_sw c evs in forallb is_done (ss g) = true -> res g = 0 /\ g_host g = 0 /\ g_clu g = 0 /\ g_down g = 0.
-Theorem c10_l4_statement_refuted : ~ c10_l4_statement.
-Proof. exact l4_statement_refuted. Qed.
-Print Assumptions c10_l4_statement_refuted.
-
-(* (2) the threshold at any concurrency: CanCreate and Increase are separate steps with the dial between them. *)
-Definition c10_l4_threshold_statement : Prop := forall c evs, 0 < maxc c -> no_early evs = true ->
-  res (run src_sw c evs) <= maxc c.
+(* The threshold at ANY concurrency is FALSE for the code in the tree: CanCreate and Increase are separate steps (the
+   repair narrowed the window from the whole dial to the connection set-up, it did not close it). *)
+Definition c10_l4_threshold_statement : Prop := forall c evs, 0 < maxc c -> res (run src_sw c evs) <= maxc c.
 Theorem c10_l4_threshold_refuted : ~ c10_l4_threshold_statement.
 Proof. exact l4_threshold_refuted. Qed.
 Print Assumptions c10_l4_threshold_refuted.
